@@ -105,7 +105,7 @@ def run_job(job):
             if not KM.close(sym, real):
                 out.error = f'stand-in disagrees with the compiled kernel on {w}: {sym} vs {real}'
             out.sample({'Y': w['Y'], 'X': w['X'], 'corr': corr, 'score': real})
-    return hutil.run_symx(job, setup, body)
+    return hutil.run_symx(job, setup, body, wit=wit)
 
 
 def classify(Y, X):
@@ -115,6 +115,13 @@ def classify(Y, X):
 
 
 def replay(w):
+    try:
+        return _replay(w)
+    except Exception as e:  # the real build raised
+        return {'reproduced': True, 'signature': f'C02:raises-{type(e).__name__}', 'what': f'the real estimator raises {type(e).__name__}: {str(e)[:200]} on {({k: v for k, v in w.items() if k in ("Y", "X", "r", "corr", "Y2", "map")})}'}
+
+
+def _replay(w):
     Y, X, corr = w['Y'], w['X'], w['corr']
     got = KM.real_mi(Y, X, 1.0, corr)
     if w['cond'].startswith('relabel'):
